@@ -2,7 +2,7 @@
 From Coq Require Import List ZArith Bool QArith Qcanon.
 Import ListNotations.
 Require Import NV.C26.Prelude NV.C26.Gen_helpers NV.C26.Model NV.C26.ProofsStat.
-Require Import NV.C36.Model NV.C36.Proofs.
+Require Import NV.C36.Model NV.C36.Proofs NV.C36.ProofsStd.
 Open Scope Qc_scope.
 
 (* Classic minisanity, one key and one sample, for EVERY residual array (real or complex entries,
@@ -57,6 +57,32 @@ Theorem C36_jax_sample :
                 (Some (nansum_abs2 l / Model.qofZ (if cplx then 2 * size l else size l)%Z))
                 (if cplx then 2 * size l else size l)%Z).
 Proof. intros cplx l. exact (conj (jax_sample_nan cplx l) (jax_sample_clean cplx l)). Qed.
+
+(* JAX red_chisq_stat, second entry of reduced_chisq (jnp.std over the sample axis, modelled
+   squared as the population variance): for EVERY single sample (MAP state, one-sample object;
+   any size, real or complex dtype) without NaN the reported spread of the reduced chi^2 is
+   exactly 0 (the docstring's "the second entry of this array is always zero"), and with a NaN
+   entry it is NaN. *)
+Theorem C36_jax_std_one_sample :
+  forall (cplx : bool) (l : list entry),
+    (has_nan l = false -> jax_rcs_var cplx [l] = Some 0) /\
+    (has_nan l = true -> jax_rcs_var cplx [l] = None).
+Proof. intros cplx l. exact (conj (jax_rcs_var_one cplx l) (jax_rcs_var_one_nan cplx l)). Qed.
+
+(* For EVERY number of samples and all per-sample values (no NaN): the squared JAX spread is the
+   arithmetic mean over the samples of the squared deviations from the sample mean (population
+   variance, ddof = 0). *)
+Theorem C36_jax_std_is_population_variance :
+  forall xs : list Qc,
+    ovar (map Some xs) = Some (qmean (map (sqdev (qmean xs)) xs)).
+Proof. exact ovar_some. Qed.
+
+(* Whatever the samples: the modelled squared spread is either NaN or non-negative (so the square
+   root taken by jnp.std is of a non-negative number; the totalised division by a zero sample
+   count yields 0 here and is never a negative value). *)
+Theorem C36_jax_std_nonneg :
+  forall (l : list (option Qc)) (v : Qc), ovar l = Some v -> 0 <= v.
+Proof. exact ovar_nonneg. Qed.
 
 (* Agreement -- PARTIAL (the property demands it for all inputs): on real residuals without NaNs
    and without exact zeros (non-empty arrays of one size, >= 1 samples) the classic and the JAX
